@@ -33,7 +33,7 @@ theorem positionStep_pending (t t' : Table) (c : String) (id : Nat) (hs : t.posi
         obtain ⟨t1, _, hs⟩ := bind_ok hs
         have := pure_ok hs; subst this; rfl
 
-theorem addColumn_pending (t t' : Table) (col : Column) (mysql : Bool) (hs : t.addColumn col mysql = .ok t')
+theorem addColumn_pending (t t' : Table) (col : Column) (mysql : Bool) {pg : Bool} (hs : t.addColumn col mysql pg = .ok t')
     (h : t.pendingPos = none ∨ ¬ t.mergeHit col.name) : t'.pendingPos = none := by
   unfold addColumn at hs
   cases hg : t.colIdx.get? col.name with
@@ -278,10 +278,10 @@ theorem ensure_then_pending (m m' : Migration) (tb site : String) (f : Table →
   exact onTable_pending m1 m' site id f tb (ensureTable_inv m m1 tb id h h1) hnm (hp tb hpo)
     (fun t t' ht htn hft => hf t t' (hmem t ht) htn hft) hs
 
-theorem addColumn_pending (m m' : Migration) (tb : String) (col : Column) (mysql : Bool) (h : m.Inv)
+theorem addColumn_pending (m m' : Migration) (tb : String) (col : Column) (mysql : Bool) {pg : Bool} (h : m.Inv)
     (hpo : m.PendingOnly (m.resolve tb))
     (hc : ∀ t ∈ m.tables, t.name = m.resolve tb → t.pendingPos = none ∨ ¬ t.mergeHit col.name)
-    (hs : m.addColumn tb col mysql = .ok m') : m'.NoPending := by
+    (hs : m.addColumn tb col mysql pg = .ok m') : m'.NoPending := by
   unfold addColumn at hs
   refine ensure_then_pending m m' _ _ _ h hpo ?_ hs
   intro t t' ht htn hft
